@@ -173,8 +173,8 @@ package sourceaddrs
 //@   sweep
 //@   requires pre.u: u != nil
 //@   ensures C07.https.scheme: err == nil ==> u.Scheme == "https"
-//@   ensures C07.https.checksum: err == nil ==> len(qs["checksum"]) == 0
-//@   ensures C07.https.archive: err == nil ==> (len(qs["archive"]) == 0 ==> hasSuffix(escapedPath(u.Path, u.RawPath), ".tar.gz") || hasSuffix(escapedPath(u.Path, u.RawPath), ".tgz"))
+//@   ensures-local C07.https.checksum: err == nil ==> len(qs["checksum"]) == 0
+//@   ensures-local C07.https.archive: err == nil ==> (len(qs["archive"]) == 0 ==> hasSuffix(escapedPath(u.Path, u.RawPath), ".tar.gz") || hasSuffix(escapedPath(u.Path, u.RawPath), ".tgz"))
 //@       && (len(qs["archive"]) > 0 ==> len(qs["archive"]) == 1 && qs["archive"][0] == "tgz")
 //@   ensures C07.https.unchanged: u.Scheme == old(u.Scheme) && u.User == old(u.User)
 
